@@ -16,7 +16,7 @@ Require Import Cirbo.Model.Base Cirbo.Model.Gate Cirbo.Model.Circuit Cirbo.Model
         Cirbo.Model.Connect Cirbo.Model.History Cirbo.Model.WF.
 Require Import Cirbo.Proofs.WFEmplace Cirbo.Proofs.WFConnect1 Cirbo.Proofs.WFConnect2 Cirbo.Proofs.WFStep Cirbo.Proofs.WFSound Cirbo.Proofs.SemConnectStruct
         Cirbo.Proofs.SemConnectLeft Cirbo.Proofs.SemConnectRight Cirbo.Proofs.SemConnectWrappers
-        Cirbo.Proofs.SemBlock.
+        Cirbo.Proofs.SemBlock Cirbo.Proofs.SemConnectTotal.
 
 (* ---- the result is well formed (from C02) ---- *)
 Theorem C10_result_wf : forall base other tc oc right name ap r,
@@ -172,6 +172,23 @@ Theorem C10_block_into_circuit_spec : forall c b,
     ((forall l, In l (bgates b) -> ~ In l (binputs b) -> is_input_gate c l = false) ->
      inputs s = nub_first (binputs b)).
 Proof. exact block_into_circuit_spec. Qed.
+
+(* ---- totality of a left connection: it returns normally as soon as the arguments pass the
+        documented checks and no copied gate label / block name clashes with one of base
+        (copied labels cannot clash with each other: prefixing is injective) ---- *)
+Theorem C10_connect_left_total : forall base other tc oc name ap,
+  WF base -> WF other ->
+  dmem (blocks base) name = false ->
+  (forall t, In t tc -> has_gate base t = true) ->
+  (forall o, In o oc -> is_input_gate other o = true) -> NoDup oc -> length tc = length oc ->
+  (forall l, has_gate other l = true -> ~ In l oc ->
+             has_gate base (conn_prefix name ap ++ l)%string = false) ->
+  (forall k, dmem (blocks other) k = true -> dmem (blocks base) (conn_prefix name ap ++ k)%string = false) ->
+  exists r, connect_circuit base other tc oc false name ap = Ok r.
+Proof. exact connect_left_total. Qed.
+
+Theorem C10_prefix_injective : forall p x y : string, (p ++ x)%string = (p ++ y)%string -> x = y.
+Proof. exact append_inj_l. Qed.
 
 (* ---- non-vacuity: concrete compositions satisfying the hypotheses ---- *)
 Definition C10_ex_base : circuit :=
